@@ -21,3 +21,35 @@ Theorem C13_concurrent_equals_sequential : forall (Shared Priv : Type) (step : S
   run_schedule Shared Priv step sh (repeat i (steps_of i sched)) ts i.
 Proof. exact concurrent_equals_sequential. Qed.
 Print Assumptions C13_concurrent_equals_sequential.
+
+(* ---- source level (gen/Effects.v is regenerated from the repository by the go/ssa translator on every run) ---- *)
+From LD Require Import EffectsDefs EffectsProof.
+From LDGen Require Import Effects.
+From Coq Require Import String List.
+
+Theorem C13_evaluate_writes_nothing_shared : forall n f e,
+  Reach functions start n -> find_fn functions n = Some f -> In e (fn_effects f) -> write_ok e = true.
+Proof. exact evaluate_writes_nothing_shared. Qed.
+Print Assumptions C13_evaluate_writes_nothing_shared.
+
+Theorem C13_no_goroutines_no_sync_primitives : forall n f e,
+  Reach functions start n -> find_fn functions n = Some f -> In e (fn_effects f) -> no_concurrency e = true.
+Proof. exact evaluate_no_concurrency_primitives. Qed.
+Print Assumptions C13_no_goroutines_no_sync_primitives.
+
+Theorem C13_external_calls_whitelisted : forall n f e,
+  Reach functions start n -> find_fn functions n = Some f -> In e (fn_effects f) -> ext_in ext_whitelist e = true.
+Proof. exact external_calls_whitelisted. Qed.
+Print Assumptions C13_external_calls_whitelisted.
+
+Theorem C13_interface_calls_whitelisted : forall n f e,
+  Reach functions start n -> find_fn functions n = Some f -> In e (fn_effects f) ->
+  iface_in iface_whitelist e = true /\ no_dyn_except dyn_whitelist e = true.
+Proof. exact interface_calls_whitelisted. Qed.
+Print Assumptions C13_interface_calls_whitelisted.
+
+(* the reachability argument itself, for every call graph *)
+Theorem C13_closed_set_contains_everything_reachable : forall fs seen start0,
+  closed fs seen = true -> In start0 seen -> forall n, Reach fs start0 n -> In n seen.
+Proof. exact closed_sound. Qed.
+Print Assumptions C13_closed_set_contains_everything_reachable.
